@@ -33,6 +33,7 @@ func runAnalyzer(pass *analysis.Pass) (interface{}, error) {
 	}
 	if critic == nil {
 		// Init error was already reported for another package.
+		verifPass("PassReturnSkipped", pass)
 		return nil, nil
 	}
 	verifPass("PassPrepared", pass)
